@@ -12,9 +12,9 @@ func init() {
 
 func rKnownCollisions(emit func(Case), completeness bool) {
 	ws := []struct {
-		rs     []rRoute
-		m, p   string
-		what   string
+		rs   []rRoute
+		m, p string
+		what string
 	}{
 		{[]rRoute{{"POST", "/:y"}, {"GET", `/\:`}}, "GET", "/bba", "GET /bba"},
 		{[]rRoute{{"GET", `/a/\:x`}, {"GET", "/a/:id"}}, "GET", "/a/b", "GET /a/b"},
